@@ -99,6 +99,8 @@ def _worker(args):
     mod = importlib.import_module(modname)
     try:
         res = mod.run_shard(shard, tier, seed)
+        for v in res.violations:
+            v["_shard"] = shard
     except Exception as e:  # harness fault inside a shard: surface it, never swallow
         import traceback
 
@@ -195,7 +197,9 @@ def execute(mod, tier: str, seed: int) -> int:
             total.merge(r)
     else:
         ctx = mp.get_context("fork")
-        with ctx.Pool(min(procs, len(shards))) as pool:
+        # one fresh forked process per shard: a shard's outcome never depends on which shards ran
+        # before it in the same worker, so a whole shard can be replayed from a fresh interpreter
+        with ctx.Pool(min(procs, len(shards)), maxtasksperchild=1) as pool:
             for r in pool.imap_unordered(_worker, args, chunksize=1):
                 total.merge(r)
     wall = time.time() - t0
@@ -244,14 +248,25 @@ def execute(mod, tier: str, seed: int) -> int:
         h = hashlib.sha1(sig.encode()).hexdigest()[:12]
         path = os.path.join(rdir, f"{h}.json")
         with open(path, "w") as f:
-            json.dump({"property": prop, **v}, f, indent=1, sort_keys=True, default=str)
+            json.dump({"property": prop, **{k: x for k, x in v.items() if k != "_shard"}}, f, indent=1, sort_keys=True, default=str)
             f.write("\n")
         if not confirm(path):
-            print(
-                f"HARNESS FAULT: violation does not reproduce from a fresh interpreter: {path}"
-            )
-            rc = max(rc, 2)
-            continue
+            # the case alone does not reproduce: the failure depends on what the implementation
+            # was asked before within the same shard (hidden state); replay the whole shard
+            shard_rec = {"property": prop, "kind": v["kind"], "signature": sig, "shard": v.get("_shard"),
+                         "tier": tier, "seed": seed, "case": v["case"], "expected": v["expected"],
+                         "observed": v["observed"],
+                         "note": "history-dependent: reproduces only after the preceding cases of this shard"}
+            with open(path, "w") as f:
+                json.dump(shard_rec, f, indent=1, sort_keys=True, default=str)
+                f.write("\n")
+            if v.get("_shard") is None or not confirm(path):
+                print(
+                    f"HARNESS FAULT: violation does not reproduce from a fresh interpreter: {path}"
+                )
+                rc = max(rc, 2)
+                continue
+            print("  (history-dependent violation: the replay file re-runs the enclosing shard)")
         print(f"VIOLATION property={prop} replay={path}")
         print(f"  kind={v['kind']} signature={sig}")
         print(f"  expected={json.dumps(v['expected'], default=str)[:300]}")
